@@ -101,8 +101,8 @@ func Verif_C19_Keyspace() {
 func Verif_C19_Commands() {
 	s := verifServer()
 	k := vr.Tok("k")
-	cmd := vr.Choose("cmd", 17)
-	kinds := []int{dStr, dStr, dStr, dInt, dStr, dList, dList, dList, dHash, dHash, dSet, dSet, dZSet, dZSet, dStr, dStr, dList}
+	cmd := vr.Choose("cmd", 19)
+	kinds := []int{dStr, dStr, dStr, dInt, dStr, dList, dList, dList, dHash, dHash, dSet, dSet, dZSet, dZSet, dStr, dStr, dList, dStr, dStr}
 	if vr.Choose("pre", 2) == 1 {
 		verifPreset(s, 0, k, c19Value("old", kinds[cmd]))
 	}
@@ -149,6 +149,10 @@ func Verif_C19_Commands() {
 		_, err, panicked = verifRun(s, "FLUSHDB")
 	case 16:
 		_, err, panicked = verifRun(s, "LTRIM", k, "0", "0")
+	case 17: // the same key named twice
+		_, err, panicked = verifRun(s, "DEL", k, k)
+	case 18: // a missing key next to an existing one
+		_, err, panicked = verifRun(s, "DEL", vr.Tok("missing"), k)
 	}
 	vr.Assert(!panicked, "C19.cmd.nopanic."+strconv.Itoa(cmd))
 	_ = err
